@@ -615,7 +615,9 @@ Proof.
 Qed.
 
 Lemma affected_area_aa_of d : affected_area d = aa_of (touched_points d).
-Proof. reflexivity. Qed.
+Proof. unfold affected_area, aa_of. reflexivity. Qed.
+
+Global Opaque touched_points.
 
 (* C20 affected_area_tight *)
 Theorem affected_area_none d : (forall p, ~ touched d p) -> affected_area d = rect_zero.
@@ -663,4 +665,162 @@ Proof.
   destruct S as [x0 [y0 [x1 [y1 [Hc [Hall [[p1 [I1 E1]] [[p2 [I2 E2]] [[p3 [I3 E3]] [[p4 [I4 E4]] Heq]]]]]]]]]].
   exists x0, y0, x1, y1. split; [assumption|]. split; [intros p Hp; apply Hall, HI, Hp|].
   repeat split; [exists p1|exists p2|exists p3|exists p4]; split; try assumption; apply HI; assumption.
+Qed.
+
+(* ===== Part 4: eq, diff, swap_xy ===================================================================== *)
+
+Lemma opt_eqb_spec a b : opt_eqb a b = true <-> a = b.
+Proof.
+  destruct a as [x|], b as [y|]; cbn [opt_eqb]; split; intros H; try discriminate; try reflexivity.
+  - f_equal. lia.
+  - inversion H. lia.
+Qed.
+
+Lemma list_eqb_map {A} (f g : A -> option Z) l :
+  list_eqb (map f l) (map g l) = forallb (fun i => opt_eqb (f i) (g i)) l.
+Proof. induction l as [|x l IH]; cbn [map list_eqb forallb]; [reflexivity|rewrite IH; reflexivity]. Qed.
+
+Lemma mock_eq_cells a b :
+  mock_eq a b = true <-> forall i, 0 <= i < NCELLS -> cell (cells a) i = cell (cells b) i.
+Proof.
+  unfold mock_eq, cells_list. rewrite list_eqb_map, forallb_forall. split.
+  - intros H i Hi. apply opt_eqb_spec, H, In_range, Hi.
+  - intros H i Hi. apply opt_eqb_spec, H, In_range, Hi.
+Qed.
+
+Lemma cells_gp a b :
+  (forall i, 0 <= i < NCELLS -> cell (cells a) i = cell (cells b) i) <-> (forall p, gp a p = gp b p).
+Proof.
+  split.
+  - intros H p. unfold gp. destruct (in_displayb p) eqn:E; [|reflexivity].
+    apply in_displayb_spec in E. apply H. pose proof (idx_in_array p E) as Ha. unfold in_array in Ha. lia.
+  - intros H i Hi. destruct (idx_pt i Hi) as [Ei Hd]. specialize (H (pt i)). unfold gp in H.
+    apply in_displayb_spec in Hd. rewrite Hd, Ei in H. exact H.
+Qed.
+
+Lemma mock_eq_gp a b : mock_eq a b = true <-> forall p, gp a p = gp b p.
+Proof. rewrite mock_eq_cells. apply cells_gp. Qed.
+
+(* C20 eq_iff_cells: == is true exactly when all 64 x 64 cells agree (the flags are not compared) *)
+Theorem eq_iff_cells a b :
+  mock_eq a b = true <-> forall x y, 0 <= x < SIZE -> 0 <= y < SIZE -> get_pixel a (P x y) = get_pixel b (P x y).
+Proof.
+  rewrite mock_eq_gp. split.
+  - intros H x y _ _. rewrite !get_pixel_gp, H. reflexivity.
+  - intros H p. destruct (in_displayb p) eqn:E.
+    + apply in_displayb_spec in E. destruct p as [x y]. destruct E as [Hx Hy]. cbn [px py] in *.
+      specialize (H x y Hx Hy). rewrite !get_pixel_gp in H. inversion H. reflexivity.
+    + apply in_displayb_false in E. rewrite !gp_outside by assumption. reflexivity.
+Qed.
+
+Theorem eq_iff_get_pixel a b : mock_eq a b = true <-> forall p, get_pixel a p = get_pixel b p.
+Proof.
+  rewrite mock_eq_gp. split.
+  - intros H p. rewrite !get_pixel_gp, H. reflexivity.
+  - intros H p. specialize (H p). rewrite !get_pixel_gp in H. inversion H. reflexivity.
+Qed.
+
+Lemma existsb_points_bb q : existsb (point_eqb q) (points bounding_box) = in_displayb q.
+Proof.
+  apply eq_true_iff_eq. rewrite existsb_exists, in_displayb_spec, points_bb. split.
+  - intros [p [Hp E]]. apply point_eqb_spec in E. subst p. apply in_map_iff in Hp. destruct Hp as [i [<- Hi]].
+    apply In_range in Hi. apply idx_pt, Hi.
+  - intros H. exists q. split; [|apply point_eqb_refl]. apply in_map_iff. exists (idx q). split; [apply pt_idx, H|].
+    apply In_range. pose proof (idx_in_array q H) as Ha. unfold in_array in Ha. lia.
+Qed.
+
+Lemma points_bb_in_display : Forall in_display (points bounding_box).
+Proof.
+  rewrite points_bb. apply Forall_forall. intros p Hp. apply in_map_iff in Hp. destruct Hp as [i [<- Hi]].
+  apply In_range in Hi. apply idx_pt, Hi.
+Qed.
+
+Lemma diff_loop_ok a b acc l :
+  Forall in_display l ->
+  exists acc', diff_loop a b acc l = Ok acc' /\
+    forall q, gp acc' q = if existsb (point_eqb q) l then diff_color (gp a q) (gp b q) else gp acc q.
+Proof.
+  revert acc; induction l as [|p t IH]; intros acc Hl; cbn [diff_loop existsb].
+  - exists acc. split; reflexivity.
+  - inversion Hl as [|? ? Hp Ht]; subst. rewrite !get_pixel_gp. cbn [bind].
+    rewrite set_pixel_unchecked_ok by assumption. cbn [bind].
+    destruct (IH (put acc p (diff_color (gp a p) (gp b p))) Ht) as [acc' [E Hg]].
+    exists acc'. split; [assumption|]. intros q. rewrite Hg, gp_put by assumption.
+    destruct (existsb (point_eqb q) t); [rewrite orb_true_r; reflexivity|]. rewrite orb_false_r.
+    destruct (point_eqb q p) eqn:Eq; [apply point_eqb_spec in Eq; subst; reflexivity|reflexivity].
+Qed.
+
+(* diff never panics and colours exactly the cells that differ *)
+Theorem diff_spec a b :
+  exists df, diff a b = Ok df /\
+    forall p, gp df p = if in_displayb p then diff_color (gp a p) (gp b p) else None.
+Proof.
+  unfold diff. destruct (diff_loop_ok a b new_display _ points_bb_in_display) as [df [E Hg]].
+  exists df. split; [assumption|]. intros p. rewrite Hg, existsb_points_bb, gp_new. reflexivity.
+Qed.
+
+Lemma diff_color_none s o : diff_color s o = None <-> s = o.
+Proof.
+  destruct s as [x|], o as [y|]; cbn [diff_color]; split; intros H; try discriminate; try reflexivity.
+  - destruct (x =? y) eqn:E; cbn [negb] in H; [f_equal; lia|discriminate].
+  - inversion H. subst. rewrite Z.eqb_refl. reflexivity.
+Qed.
+
+(* C20 diff_empty_iff_eq *)
+Theorem diff_empty_iff_eq a b df :
+  diff a b = Ok df ->
+  ((forall p, get_pixel df p = Ok None) <-> mock_eq a b = true).
+Proof.
+  intros E. destruct (diff_spec a b) as [df' [E' Hg]]. rewrite E in E'. inversion E'; subst df'.
+  rewrite mock_eq_gp. split.
+  - intros H p. specialize (H p). rewrite get_pixel_gp, Hg in H. inversion H as [H1].
+    destruct (in_displayb p) eqn:Ep.
+    + apply diff_color_none, H1.
+    + apply in_displayb_false in Ep. rewrite !gp_outside by assumption. reflexivity.
+  - intros H p. rewrite get_pixel_gp, Hg. f_equal. destruct (in_displayb p); [|reflexivity].
+    apply diff_color_none, H.
+Qed.
+
+Theorem diff_empty_iff_eq_new a b df :
+  diff a b = Ok df -> (mock_eq df new_display = true <-> mock_eq a b = true).
+Proof.
+  intros E. rewrite <- (diff_empty_iff_eq a b df E), mock_eq_gp. split.
+  - intros H p. rewrite get_pixel_gp, H, gp_new. reflexivity.
+  - intros H p. specialize (H p). rewrite get_pixel_gp in H. inversion H. rewrite gp_new. congruence.
+Qed.
+
+Theorem diff_total a b : exists df, diff a b = Ok df.
+Proof. destruct (diff_spec a b) as [df [E _]]. eauto. Qed.
+
+Theorem diff_pixel a b df p :
+  diff a b = Ok df ->
+  get_pixel df p = Ok (if in_displayb p then diff_color (gp a p) (gp b p) else None).
+Proof.
+  intros E. destruct (diff_spec a b) as [df' [E' Hg]]. rewrite E in E'. inversion E'; subst df'.
+  rewrite get_pixel_gp, Hg. reflexivity.
+Qed.
+
+(* swap_xy mirrors *)
+Lemma swap_loop_ok a acc l :
+  Forall in_display l ->
+  exists acc', swap_loop a acc l = Ok acc' /\
+    forall q, gp acc' q = if existsb (point_eqb q) l then gp a (P (py q) (px q)) else gp acc q.
+Proof.
+  revert acc; induction l as [|p t IH]; intros acc Hl; cbn [swap_loop existsb].
+  - exists acc. split; reflexivity.
+  - inversion Hl as [|? ? Hp Ht]; subst. rewrite !get_pixel_gp. cbn [bind].
+    rewrite set_pixel_unchecked_ok by assumption. cbn [bind].
+    destruct (IH (put acc p (gp a (P (py p) (px p)))) Ht) as [acc' [E Hg]].
+    exists acc'. split; [assumption|]. intros q. rewrite Hg, gp_put by assumption.
+    destruct (existsb (point_eqb q) t); [rewrite orb_true_r; reflexivity|]. rewrite orb_false_r.
+    destruct (point_eqb q p) eqn:Eq; [apply point_eqb_spec in Eq; subst; reflexivity|reflexivity].
+Qed.
+
+Theorem swap_xy_spec a :
+  exists s, swap_xy a = Ok s /\ forall x y, get_pixel s (P x y) = get_pixel a (P y x).
+Proof.
+  unfold swap_xy. destruct (swap_loop_ok a new_display _ points_bb_in_display) as [s [E Hg]].
+  exists s. split; [assumption|]. intros x y. rewrite !get_pixel_gp, Hg, existsb_points_bb, gp_new. cbn [px py]. f_equal.
+  destruct (in_displayb (P x y)) eqn:Ep; [reflexivity|].
+  symmetry. apply gp_outside. apply in_displayb_false in Ep. unfold in_display in *. cbn [px py] in *. lia.
 Qed.
